@@ -279,3 +279,27 @@ Proof.
   - left. exists m. split; [done|]. eapply step_sender_stays; eauto.
   - right. exists mf. split; [done|]. eapply failing_sender_closed; eauto.
 Qed.
+
+(* ---------------------------------------------------------------- objects of other connections *)
+From Aldrin Require Import Broker.InvProofsKeep.
+
+(* whatever connection [c] sends, an object owned by another, healthy connection is still there *)
+Lemma step_keeps_others s i c x u o cso s' out :
+  reachable s → legal s i → i_ev i = Message c x →
+  objs s !! u = Some o → o_owner o ≠ c → conns s !! o_owner o = Some cso → cs_alive cso = true →
+  step s (Message c x) (i_fresh i) (i_bserial i) = Done (s', out) →
+  objs s' !! u = Some o.
+Proof.
+  intros Hr Hl He Hu Hne Hco Hao Hs. destruct (legal_split _ _ Hl) as (L1 & L2 & L3). rewrite He in L3.
+  destruct (handler_good s (Message c x) (i_fresh i) (i_bserial i) (reachable_inv s Hr) L1 L2 L3) as (m & Hm & HI).
+  assert (keeps_obj u o m) as Hk.
+  { unfold handler_of in Hm.
+    pose proof (handle_keeps u o {| ms := s; mw := work0; mo := [] |} c x (i_fresh i) (i_bserial i) Hu Hne) as Hh.
+    destruct (handle _ c x (i_fresh i) (i_bserial i)) as [m1|m1|]; [| |done]; inversion Hm; subst m; exact Hh. }
+  destruct (step_bystander_stays s (Message c x) (i_fresh i) (i_bserial i) (o_owner o) cso s' out Hco Hao)
+    as (cs' & Hc' & _); [cbn; congruence|exact Hs|].
+  rewrite step_step_fuel in Hs. unfold step_fuel in Hs. rewrite Hm in Hs.
+  pose proof (settle_spec (fuel_for (ms m)) m HI) as Hst.
+  destruct (settle (fuel_for (ms m)) m) as [m'|m'|]; [|done..]. inversion Hs; subst.
+  destruct Hst as (_ & (_ & _ & _ & Hkeep) & _). destruct (Hkeep _ _ Hk) as [?|Hn]; [done|congruence].
+Qed.
